@@ -34,6 +34,42 @@ func runC08(c *Ctx) {
 	c08R8(c)
 	c08R9(c)
 	c08R10(c)
+	c08R11(c)
+}
+
+// c08R11: a filtered message stays filtered across the fan-out (F21).
+func c08R11(c *Ctx) {
+	r := c.R.Rule("R11", "K8/K3 v1 filtered stays filtered: Message.Clone carries every Message field that DestinationNode.Run reads to decide on the write, and Destination.Write happens only on the !msg.filtered edge", 3)
+	msgT := c.Type(r, pStream, "Message")
+	clone := c.SSA(r, pStream, "(*Message).Clone")
+	run := c.SSA(r, pStream, "(*DestinationNode).Run")
+	filteredF := c.Field(r, pStream, "Message", "filtered")
+	if msgT == nil || clone == nil || run == nil || filteredF == nil {
+		return
+	}
+	st, ok := msgT.Underlying().(*types.Struct)
+	if !ok {
+		return
+	}
+	read := map[*types.Var]bool{filteredF: true}
+	for i := 0; i < st.NumFields(); i++ {
+		f := st.Field(i)
+		if len(kit.FieldLoads(run, f)) > 0 {
+			read[f] = true
+		}
+	}
+	for i := 0; i < st.NumFields(); i++ {
+		f := st.Field(i)
+		if !read[f] {
+			continue
+		}
+		c.R.Check(len(kit.FieldStores(clone, f)) > 0, r, "Message.Clone carries "+f.Name(), c.Pos(clone.Pos()), "set", "Message.Clone does not copy Message."+f.Name()+", which DestinationNode.Run reads: behind a multi-destination fan-out every branch sees the zero value (a filtered record is written by every destination)", false)
+	}
+	g := kit.NewGates()
+	for _, l := range kit.FieldLoads(run, filteredF) {
+		g.AddEdges(kit.CondEdges(l, false), "!msg.filtered")
+	}
+	c.Dominated(r, "DestinationNode.Run: writes only unfiltered messages", asInstrs(kit.CallsTo(run, c.Fam(c.Fn(r, pStream, "Destination.Write")))), g, "the !msg.filtered edge")
 }
 
 // c08R10: a condition error takes the slot of the record it belongs to.
@@ -450,9 +486,9 @@ func c08R8(c *Ctx) {
 		if fn == nil {
 			continue
 		}
-		for _, call := range kit.CallsTo(fn, srcAck) {
-			a := call.Common().Args
-			c.R.Check(len(a) == 2 && isOrigPositions(a[1]), r, m+": acks originalBatch().positions", c.Pos(call.Pos()), "ok", m+" hands Source.Ack positions that do not come from originalBatch().positions (e.g. a record's own Position, which a processor controls)", true)
+		for _, via := range kit.CallsVia(fn, srcAck, 1) {
+			a, call := via.Args, via.Site
+			c.R.Check(len(a) == 2 && a[1] != nil && isOrigPositions(a[1]), r, m+": acks originalBatch().positions", c.Pos(call.Pos()), "ok", m+" hands Source.Ack positions that do not come from originalBatch().positions (e.g. a record's own Position, which a processor controls)", true)
 		}
 	}
 	for _, m := range []string{"(*Worker).Ack", "(*Worker).Nack", "(*multiAckNacker).Ack", "(*multiAckNacker).Nack"} {
